@@ -12,14 +12,14 @@ CLAIMED = {
     "C01": {
         "category": "other",
         "technique": "Lean 4 proofs of per-bucket refinement (lookup, cursor, in-transaction edits on every well-formed tree) + Lean proof that the model of commit (rebalance replay + spill) preserves contents and the tree invariant, tied by per-commit shape prediction + verified file checker run on the real bytes after every commit + differential correspondence of every API outcome against the Lean specification",
-        "text": "Proved in Lean, for all keys, values, trees and edit sequences (Jamm/Props/C01.lean): the reference is an ordered map; on every well-formed B+tree the model of Bucket::get and of the cursor return the reference's answer on the tree's in-order contents, any sequence of put/delete leaf edits equals the same sequence of reference-map operations and preserves well-formedness; the executable checker wfb is sound for well-formedness. Layer C: the model of one bucket's commit (replay of any list of rebalance steps, then spill at any page size) provably leaves the bucket's contents unchanged and keeps the tree invariant (separators bound subtrees, no routing gap, uniform depth), which every put/delete keeps too and which implies well-formedness — so the read theorems hold at every point of every history of the model; the correspondence run checks on every commit that this model predicts the exact shape (keys, page cuts) of the tree the real code wrote. NOT proved: the serialisation of nodes to pages, the composition over nested buckets and the page accounting of commit; those are decided per commit by the verified file checker and the contents comparison on the bytes the real code wrote (C05) — hence category other, not proof. Tie, checked on every run: histories (random profiles, directed enumerations of all delete ranges over 1/2/3-level trees with and without nested buckets, rollbacks, reopen, misuse of deleted handles) are executed on /repo built from the working tree and every call outcome and every post-commit dump (same process and after reopen) is compared by the Lean driver with the specification.",
+        "text": "Proved in Lean, for all keys, values, trees and edit sequences (Jamm/Props/C01.lean): the reference is an ordered map; on every well-formed B+tree the model of Bucket::get and of the cursor return the reference's answer on the tree's in-order contents, any sequence of put/delete leaf edits equals the same sequence of reference-map operations and preserves well-formedness; the executable checker wfb is sound for well-formedness. Layer C: the model of one bucket's commit (replay of any list of rebalance steps, then spill at any page size) provably leaves the bucket's contents unchanged and keeps the tree invariant (separators bound subtrees, no routing gap, uniform depth), which every put/delete keeps too and which implies well-formedness — so the read theorems hold at every point of every history of the model; the correspondence run checks on every commit that this model predicts the exact shape (keys, page cuts) of the tree the real code wrote. The page writer is modelled too and proved inverse to the decoder (C05). NOT proved: the composition over nested buckets and the page accounting of commit; those are decided per commit by the verified file checker and the contents comparison on the bytes the real code wrote (C05) — hence category other, not proof. Tie, checked on every run: histories (random profiles, directed enumerations of all delete ranges over 1/2/3-level trees with and without nested buckets, rollbacks, reopen, misuse of deleted handles) are executed on /repo built from the working tree and every call outcome and every post-commit dump (same process and after reopen) is compared by the Lean driver with the specification.",
         "design_ref": "DESIGN.md §5 C01, §3.1, §3.4–3.7",
         "note": COMMON_NOTE + "Modelled, tied by correspondence only: search/cursor/leaf edits (their Lean models are exercised through the spec comparison), commit.",
     },
     "C05": {
         "category": "other",
         "technique": "independent file checker written in Lean (decoder + WF + page accounting), proved sound in Lean, executed on the real file bytes after every commit; plus DB::check and contents comparison with the specification",
-        "text": "After every commit of every generated history the harness snapshots the file and the Lean driver decodes it with the layout regenerated from /repo/src, chooses the header as the code does, unfolds every bucket tree, evaluates wfb (keys strictly ascending within and across pages, separators bound their subtrees, every element inside its run), and checks that reached runs + free-list run + free-list entries are exactly pages 2..numPages-1 with no page twice; the decoded contents must equal the specification's and DB::check must agree. Proved in Lean: wfb is sound for WF (so Layer Q theorems apply to the real file), the accounting comparison is exact (no duplicate, none missing, none out of range); the model of one bucket's commit keeps 'keys strictly ascending, separators bound their subtrees' for every tree, every list of rebalance steps and every page size (commit_keeps_tree_wellformed), and the run checks on every commit that this model predicts the shape of the tree the code wrote and that the invariant's executable forms (proved sound) hold on the real overlay before and the real tree after. Not proved: that commit's page allocation and release always yield exact accounting (decided per commit by the checker, and by the free-list protocol theorems of C10).",
+        "text": "After every commit of every generated history the harness snapshots the file and the Lean driver decodes it with the layout regenerated from /repo/src, chooses the header as the code does, unfolds every bucket tree, evaluates wfb (keys strictly ascending within and across pages, separators bound their subtrees, every element inside its run), and checks that reached runs + free-list run + free-list entries are exactly pages 2..numPages-1 with no page twice; the decoded contents must equal the specification's and DB::check must agree. Proved in Lean: wfb is sound for WF (so Layer Q theorems apply to the real file), the accounting comparison is exact (no duplicate, none missing, none out of range); the model of one bucket's commit keeps 'keys strictly ascending, separators bound their subtrees' for every tree, every list of rebalance steps and every page size (commit_keeps_tree_wellformed), and the run checks on every commit that this model predicts the shape of the tree the code wrote and that the invariant's executable forms (proved sound) hold on the real overlay before and the real tree after. Also proved: decodePage after writeLeafPage / writeBranchPage is the identity on every node that fits its run, and the writer changes no other byte; the run checks that every tree page of the real file holds exactly the bytes this model writer produces. Not proved: that commit's page allocation and release always yield exact accounting (decided per commit by the checker, and by the free-list protocol theorems of C10).",
         "design_ref": "DESIGN.md §5 C05, §3.2, §3.6",
         "note": COMMON_NOTE + "The checker shares no code with jammdb; bytes outside defined ranges (padding, stale tails) are unconstrained by design.",
     },
